@@ -58,6 +58,13 @@ pub open spec fn put_adds<V, A: Ord>(kept: Seq<(VClock<A>, V)>, c: SMap<A, u64>)
     forall|i: int| 0 <= i < kept.len() ==> !clt(c, (#[trigger] kept[i]).0@)
 }
 
+/// m is the join (least upper bound) of the contexts of the first i values of s
+pub open spec fn join_upto<V, A: Ord>(s: Seq<(VClock<A>, V)>, i: int, m: SMap<A, u64>) -> bool {
+    &&& forall|j: int, a: A| 0 <= j < i && j < s.len() ==> cnt((#[trigger] s[j]).0@, a) <= #[trigger] cnt(m, a)
+    &&& forall|a: A| #[trigger] cnt(m, a) > 0 ==> exists|j: int| 0 <= j < i && j < s.len() && cnt((#[trigger] s[j]).0@, a) == cnt(m, a)
+}
+pub open spec fn is_clocks_join<V, A: Ord>(s: Seq<(VClock<A>, V)>, m: SMap<A, u64>) -> bool { join_upto(s, s.len() as int, m) }
+
 /// some value of s strictly dominates (has observed) context c
 pub open spec fn dominated<V, A: Ord>(c: SMap<A, u64>, s: Seq<(VClock<A>, V)>) -> bool {
     exists|j: int| 0 <= j < s.len() && clt(c, (#[trigger] s[j]).0@)
@@ -139,6 +146,78 @@ impl<V, A: Ord> CvRDT for MVReg<V, A> {
         /*@<*/ ) /*@>*/ ;
         //@ shim_vec_extend(&mut self.vals, add);
         //@ proof { lemma_merge_wf(sv, ov, s1, add@, self.vals@); lemma_seq_wf(*self); }
+    }
+//@end
+}
+
+pub open spec fn rrv_ok<V, A: Ord>(p: (VClock<A>, V), o: Option<(VClock<A>, V)>, c: SMap<A, u64>) -> bool {
+    if vsub(p.0@, c) == SMap::<A, u64>::empty() { o is None } else { o matches Some(q) && q.1 == p.1 && q.0@ == vsub(p.0@, c) }
+}
+/// r is src with every context reduced by c, emptied values dropped, order kept
+pub open spec fn rr_rel<V, A: Ord>(src: Seq<(VClock<A>, V)>, c: SMap<A, u64>, r: Seq<(VClock<A>, V)>) -> bool
+    decreases src.len(),
+{
+    if src.len() == 0 { r.len() == 0 }
+    else {
+        let l = src.last();
+        if vsub(l.0@, c) == SMap::<A, u64>::empty() { rr_rel(src.drop_last(), c, r) }
+        else { r.len() > 0 && r.last().1 == l.1 && r.last().0@ == vsub(l.0@, c) && rr_rel(src.drop_last(), c, r.drop_last()) }
+    }
+}
+pub proof fn lemma_rr_rel<V, A: Ord>(src: Seq<(VClock<A>, V)>, outs: Seq<Option<(VClock<A>, V)>>, r: Seq<(VClock<A>, V)>, c: SMap<A, u64>)
+    requires fm_rel(src, outs, r), outs.len() == src.len(), forall|i: int| 0 <= i < src.len() ==> rrv_ok(src[i], #[trigger] outs[i], c),
+             forall|i: int| 0 <= i < src.len() ==> nz((#[trigger] src[i]).0@),
+    ensures rr_rel(src, c, r), forall|i: int| 0 <= i < r.len() ==> nz((#[trigger] r[i]).0@) && r[i].0@ != SMap::<A, u64>::empty(),
+    decreases src.len(),
+{
+    if src.len() > 0 {
+        let n = src.len() - 1;
+        assert(rrv_ok(src[n], outs[n], c));
+        assert(outs.last() == outs[n] && src.last() == src[n]);
+        assert forall|i: int| 0 <= i < src.drop_last().len() implies rrv_ok(src.drop_last()[i], #[trigger] outs.drop_last()[i], c) by { assert(outs.drop_last()[i] == outs[i]); }
+        assert forall|i: int| 0 <= i < src.drop_last().len() implies nz((#[trigger] src.drop_last()[i]).0@) by { assert(src.drop_last()[i] == src[i]); }
+        match outs.last() {
+            Some(x) => {
+                lemma_rr_rel(src.drop_last(), outs.drop_last(), r.drop_last(), c);
+                crate::orswot::c10_vsub_nz(src[n].0@, c);
+                assert forall|i: int| 0 <= i < r.len() implies nz((#[trigger] r[i]).0@) && r[i].0@ != SMap::<A, u64>::empty() by {
+                    if i < r.len() - 1 { assert(r[i] == r.drop_last()[i]); } else { assert(r[i] == r.last()); }
+                }
+            },
+            None => { lemma_rr_rel(src.drop_last(), outs.drop_last(), r, c); },
+        }
+    }
+}
+
+impl<V, A: Ord> ResetRemove<A> for MVReg<V, A> {
+    open spec fn rr_inv(&self) -> bool {
+        actor_ok::<A>() && forall|i: int| 0 <= i < self.vs().len() ==> nz((#[trigger] self.vs()[i]).0@) && self.vs()[i].0@ != SMap::<A, u64>::empty()
+    }
+
+//@extract fn src/mvreg.rs "ResetRemove for MVReg" reset_remove
+    fn reset_remove(&mut self, clock: &VClock<A>)
+    //@ ensures
+    //@     // C18: every value forgets the dots `clock` covers; a value none of whose dots is left disappears
+    //@     rr_rel(old(self).vs(), clock@, final(self).vs()),
+    {
+        //@ let ghost sv = self.vals@;
+        //@ proof { assert forall|i: int| 0 <= i < sv.len() implies nz((#[trigger] sv[i]).0@) by { assert(sv[i] == old(self).vs()[i]); } }
+        self.vals = /*@ shim_vec_into_filter_map_collect( @*/ mem::take(&mut self.vals)
+            /*@<*/ .into_iter()
+            .filter_map( /*@>*/ /*@ , @*/ /*@<*/ | /*@>*/ /*@<pat*/ (mut val_clock, val) /*@>*/ /*@<*/ | /*@>*/ /*@ |p: (VClock<A>, V)| -> (o: Option<(VClock<A>, V)>)
+                requires actor_ok::<A>(), nz(p.0@),
+                ensures rrv_ok(p, o, clock@)
+            { let $pat = p; @*/ {
+                val_clock.reset_remove(clock);
+                if val_clock.is_empty() {
+                    None // remove this value from the register
+                } else {
+                    Some((val_clock, val))
+                }
+            } /*@ } @*/ )
+            /*@<*/ .collect() /*@>*/
+        //@ ;
+        //@ proof { let outs = choose|outs: Seq<Option<(VClock<A>, V)>>| outs.len() == sv.len() && (forall|i: int| 0 <= i < sv.len() ==> rrv_ok(sv[i], #[trigger] outs[i], clock@)) && fm_rel(sv, outs, self.vals@); lemma_rr_rel(sv, outs, self.vals@, clock@); assert forall|i: int| 0 <= i < self.vs().len() implies nz((#[trigger] self.vs()[i]).0@) && self.vs()[i].0@ != SMap::<A, u64>::empty() by { assert(self.vs()[i] == self.vals@[i]); } }
     }
 //@end
 }
@@ -226,6 +305,62 @@ impl<V, A: Ord + Clone> MVReg<V, A> {
     //@ ensures r.vs() == Seq::<(VClock<A>, V)>::empty(), r.wf(),
     {
         Default::default()
+    }
+//@end
+
+//@extract fn src/mvreg.rs "MVReg" read
+    pub fn read(&self) -> /*@ (r: @*/ ReadCtx<Vec<V>, A> /*@ ) @*/
+    where
+        V: Clone,
+    //@ requires actor_ok::<A>(), clone_ok::<A>(), self.wf(),
+    //@ ensures
+    //@     // C06/C07: exactly one value per stored (causally maximal) write, in order; both contexts are the join of their clocks
+    //@     r.val@.len() == self.vs().len(), forall|i: int| 0 <= i < self.vs().len() ==> cloned(self.vs()[i].1, #[trigger] r.val@[i]),
+    //@     is_clocks_join(self.vs(), r.add_clock@), r.rm_clock@ == r.add_clock@,
+    {
+        let clock = self.clock();
+        let concurrent_vals = /*@ shim_vec_iter_cloned_map_collect(& @*/ self.vals /*@<*/ .iter().cloned().map( /*@>*/ /*@ , @*/ /*@<*/ | /*@>*/ /*@<pat*/ (_, v) /*@>*/ /*@<*/ | /*@>*/ /*@ |p: (VClock<A>, V)| -> (o: V) ensures o == p.1 { let $pat = p; @*/ v /*@ } @*/ ) /*@<*/ .collect() /*@>*/ ;
+        //@ proof { assert forall|i: int| 0 <= i < self.vs().len() implies cloned(self.vs()[i].1, #[trigger] concurrent_vals@[i]) by { let x = choose|x: (VClock<A>, V)| #[trigger] clone_rel(self.vals@[i], x) && x.1 == concurrent_vals@[i]; axiom_clone_pair(self.vals@[i], x); } }
+
+        ReadCtx {
+            add_clock: clock.clone(),
+            rm_clock: clock,
+            val: concurrent_vals,
+        }
+    }
+//@end
+
+//@extract fn src/mvreg.rs "MVReg" read_ctx
+    pub fn read_ctx(&self) -> /*@ (r: @*/ ReadCtx<(), A> /*@ ) @*/
+    //@ requires actor_ok::<A>(), clone_ok::<A>(), self.wf(),
+    //@ ensures is_clocks_join(self.vs(), r.add_clock@), r.rm_clock@ == r.add_clock@,
+    {
+        let clock = self.clock();
+        ReadCtx {
+            add_clock: clock.clone(),
+            rm_clock: clock,
+            val: (),
+        }
+    }
+//@end
+
+//@extract fn src/mvreg.rs "MVReg" clock
+    fn clock(&self) -> /*@ (r: @*/ VClock<A> /*@ ) @*/
+    //@ requires actor_ok::<A>(), clone_ok::<A>(), self.wf(),
+    //@ ensures is_clocks_join(self.vs(), r@), nz(r@),
+    {
+        //@ let ghost sv = self.vals@;
+        //@ proof { assert forall|i: int| 0 <= i < sv.len() implies nz((#[trigger] sv[i]).0@) by { assert(sv[i] == self.vs()[i]); } }
+        /*@ shim_vec_iter_fold(& @*/ self.vals
+            /*@<*/ .iter()
+            .fold( /*@>*/ /*@ , @*/ VClock::new(), /*@ Ghost(|i: int, b: VClock<A>| nz(b@) && join_upto(sv, i, b@)), @*/ /*@<*/ | /*@>*/ /*@<p1*/ mut accum_clock /*@>*/ /*@<*/ , /*@>*/ /*@<p2*/ (c, _) /*@>*/ /*@<*/ | /*@>*/ /*@ |acc0: VClock<A>, w: &(VClock<A>, V)| -> (o: VClock<A>)
+                requires actor_ok::<A>(), clone_ok::<A>(), nz(acc0@), nz(w.0@),
+                ensures is_join(o@, acc0@, w.0@), nz(o@)
+            { let $p1 = acc0; let $p2 = w; @*/ {
+                //@ let cc = c.clone();
+                accum_clock.merge( /*@<*/ c.clone() /*@>*/ /*@ cc @*/ );
+                accum_clock
+            } /*@ } @*/ )
     }
 //@end
 
